@@ -253,6 +253,7 @@ def P(pid):
                                '2^(le-1) < e < 2^le and gcd(e, phi) = 1, e = random_prime(le). The modular algebra is not decided.')
     elif pid == 'C14':
         R = [
+            ('RF-B bases are selected by attribute position', CL.rule_bases_by_attribute_position, 6),
             ('RF-Y refusals of local helpers are never discarded (CL03)', lambda c: rf_errors.rule_errors_not_discarded(c, scope=rf_errors.SCOPE_CL03, min_sources=0), 1),
             ('RF-B pass-through arguments keep their role (CL03)', lambda c: rf_consts.rule_argument_roles(c, scope=('cl03::',), min_sites=25), 25),
             ('RF-D blind_sign gated by verify_proof', CL.rule_blind_sign_gated, 3),
@@ -272,6 +273,7 @@ def P(pid):
                                'every serialised leaf of the ZKPoK influences a comparison the verdict depends on (the commitment randomness leaves do not: known finding). Unblinding algebra is not decided.')
     elif pid == 'C15':
         R = [
+            ('RF-B bases are selected by attribute position', CL.rule_bases_by_attribute_position, 6),
             ('RF-Y refusals of local helpers are never discarded (CL03)', lambda c: rf_errors.rule_errors_not_discarded(c, scope=rf_errors.SCOPE_CL03, min_sources=0), 1),
             ('RF-B pass-through arguments keep their role (CL03)', lambda c: rf_consts.rule_argument_roles(c, scope=('cl03::',), min_sites=25), 25),
             ('RF-C nisp5 challenge ingredients', CL.rule_nisp5_challenge, 20),
